@@ -28,6 +28,9 @@ MODES = ["error", "warning", "silent", "bogus", "warn", "", "err"]
 # different definitions of tr, and every build of a history receives the SAME Environment object as env=
 TR = len(FORMULAS)
 FORMULAS = FORMULAS + ["y ~ tr(x) + f"]
+# the same with a DOTTED callee (xp.f): what the dotted name means is looked up in the namespace of each call
+TRD = len(FORMULAS)
+FORMULAS = FORMULAS + ["y ~ xp.f(x) + f"]
 NAMESPACES = {"A": "lambda v: v * 2 + 1", "B": "lambda v: v * v", "C": None}
 # formulas naming encoding OBJECTS of the caller's namespace (one Treatment() and one Sum() per history,
 # shared by all its builds): using an object for one design must not change what it does for the next
@@ -37,7 +40,7 @@ FORMULAS = FORMULAS + ["y ~ C(g, enc) + x", "y ~ C(f, enc) + C(g, senc)", "y ~ 0
 # is the caller's object and must come back unchanged
 KN = len(FORMULAS)
 FORMULAS = FORMULAS + ["y ~ bs(x, knots=kn) + f"]
-OUTSIDE = [TR] + ENC + [KN]
+OUTSIDE = [TR, TRD] + ENC + [KN]
 
 
 def _pool(rng):
@@ -85,7 +88,7 @@ def gen(rng, tier):
     for i in range(200 if tier == "thorough" else 30):
         ops = []
         for _ in range(rng.randint(2, 4)):
-            ops.append(["build", TR, rng.choice([0, 3]), rng.choice(["A", "B", "A", "B", "C"])])
+            ops.append(["build", rng.choice([TR, TRD]), rng.choice([0, 3]), rng.choice(["A", "B", "A", "B", "C"])])
             if rng.random() < 0.5:
                 ops.append(["common", len([o for o in ops if o[0] == "build"]) - 1, rng.randrange(4)])
         cases.append({"frames": _pool(rng), "ops": ops, "kind": "shared-env", "shared_env": True})
@@ -227,7 +230,8 @@ def _execute(c, fresh_each=False):
                 try:
                     ns = None
                     if len(o) > 3 and NAMESPACES.get(o[3]):
-                        ns = {"tr": eval(NAMESPACES[o[3]])}
+                        import types as _types
+                        ns = {"tr": eval(NAMESPACES[o[3]]), "xp": _types.SimpleNamespace(f=eval(NAMESPACES[o[3]]))}
                     if o[1] in ENC:
                         ns = dict(ns or {}, **encoders)
                     if o[1] == KN:
@@ -237,6 +241,14 @@ def _execute(c, fresh_each=False):
                         arrays.append((kn, kn.copy()))
                         ns = dict(ns or {}, kn=kn)
                     d = design_matrices(FORMULAS[o[1]], dfs[o[2]], env=shared, extra_namespace=ns)
+                    if o[1] in (TR, TRD) and len(o) > 3 and NAMESPACES.get(o[3]):
+                        # what the user function of THIS call computes, whatever earlier calls were given under that name
+                        tname = "tr(x)" if o[1] == TR else "xp.f(x)"
+                        want = np.asarray(eval(NAMESPACES[o[3]])(dfs[o[2]]["x"].to_numpy(dtype=float)), dtype=float)
+                        got = np.asarray(d.common[tname], dtype=float).reshape(-1)
+                        if got.shape != want.shape or not np.allclose(got, want, rtol=1e-12, atol=1e-12):
+                            problems.append(f"design built with namespace {o[3]} ({NAMESPACES[o[3]]}): the column {tname} holds "
+                                            f"{got[:3].tolist()}..., that function gives {want[:3].tolist()}...")
                     designs.append(d)
                     trained.append([None if p is None else np.array(p.design_matrix, copy=True)
                                     for p in (d.response, d.common, d.group)])
